@@ -31,6 +31,16 @@ CHECKS = {
         "from custom functions, must leave the interpreter rendering the same bytes. Arguments.Get/NumOfArguments/IsSet/ParseInto "
         "are compared with the argument vector of the specification's normal form for piped and slot-placed values.",
    design_ref="DESIGN.md §5 C18", note=EXEC_TRUST),
+ "C04": dict(
+   technique="TLA+ JetExpr (precedence ladder as an unparser with minimal parentheses; evaluator on exact rationals with probe-call "
+             "log) enumerated by TLC over tree shapes x operator pairs x typed leaves; every tree rendered by the real library in "
+             "four surface forms, value and evaluation order compared",
+   text="TLC grows every tree of the shape family, keeps those in the property's typed fragment, checks that relational, equality "
+        "and logical operators yield booleans and integers combine integrally, and emits token lists with minimal and with full "
+        "parentheses, the exact value and the order in which probe operands must be called. The real library parses and evaluates "
+        "each in four spellings (with spaces, without, fully parenthesised, and/or/not): a wrong precedence or associativity, a "
+        "sign lexed into a literal, a lost promotion, or an operand evaluated that should not be, changes value or probe log.",
+   design_ref="DESIGN.md §5 C04", note=NOTE_TRUST + " Floats are compared numerically (1e-9 relative); zero divisors, % on floats, bool/uint operands and chained relational operators are outside the typed fragment."),
  "C05": dict(
    technique="TLA+ JetExec (DoIf/IfExit, DoRange/RangeStep with the binding table per ranger kind and variable form) model-checked "
              "by TLC over Gen_C05; every behaviour replayed on the real interpreter with a Go data catalogue for condition values",
